@@ -91,6 +91,10 @@ def render_doc(f, rnd):
         filler()
         tags(r["tags"], "  ")
         rl = emit("  Rule: R%d" % r["id"])
+        if r.get("bg") is not None:
+            emit("    Background: rb")
+            for i, s in enumerate(r["bg"]):
+                emit("      %s %s" % ("Given" if i == 0 else "And", runprog.step_name(s)))
         rnames = []
         for it in r["items"]:
             item(it, "    ", rnames)
